@@ -18,7 +18,8 @@ import (
 //             lease    a token, 0 = none (leases are C19's subject; here a token only arrives by Import and is only
 //                      looked at by the listing)
 //   Put overwrites, Delete removes the simple value and nothing else, prefix operations never touch the simple value,
-//   Import(key, t) installs t's simple value, adds t's children to the set and installs t's token,
+//   Import(key, t) installs t's simple value, adds t's children to the set and installs t's token (a transfer
+//   WITHOUT a value / token onto a key that HAS one is outside the model: the backends differ, see NOTES.md),
 //   RemoveKeys(key) removes all three kinds,
 //   ListKeys(p) reports, for every key that starts with p, exactly the kinds present: SIMPLE iff a non-empty value,
 //   PREFIX iff at least one child, LEASE iff token != 0; a key holding nothing is not reported at all.
@@ -149,7 +150,7 @@ func zz16Step(kv chord.KVProvider, m *zz16Ref, kinds int) {
 		rt.Assert(err == nil, "remove-returns-nil")
 		delete(m.children[key], ch)
 	case 4:
-		// Import of one key: simple value nil or one byte, 0..1 children, token 0 or arbitrary non-zero. A transfer
+		// Import of one key: simple value nil or one byte, 0..1 children, token 0 or arbitrary. A transfer
 		// with token 0 onto a key that holds a lease is left out: whether it frees the lease is not part of the
 		// statement (memory frees it, sqlite keeps it).
 		tr := &protocol.KVTransfer{}
@@ -157,6 +158,10 @@ func zz16Step(kv chord.KVProvider, m *zz16Ref, kinds int) {
 		if rt.Fork("import-has-value") {
 			v = []byte{rt.U8("value")}
 			tr.SimpleValue = v
+		} else if len(m.simple[key]) > 0 {
+			// a transfer without a simple value onto a key that holds one: not part of the statement either (memory
+			// clears the value, sqlite keeps it); left out like the token case below
+			rt.Assume(false)
 		}
 		var ch string
 		if rt.Fork("import-has-child") {
@@ -169,6 +174,13 @@ func zz16Step(kv chord.KVProvider, m *zz16Ref, kinds int) {
 			tr.LeaseToken = rt.U64("token") | 1<<63 // top bit set: non-zero, and a fixed varint length in the log store
 		} else if m.lease[key] {
 			rt.Assume(false)
+		}
+		if v == nil && ch == "" && !tok {
+			// a transfer that carries nothing: an "empty value" case (sqlite stores it as a present-but-empty value)
+			if rt.Bound("EMPTY") == 0 {
+				rt.Assume(false)
+			}
+			rt.Reach("import-of-nothing")
 		}
 		err := kv.Import(ctx, [][]byte{[]byte(key)}, []*protocol.KVTransfer{tr})
 		rt.Assert(err == nil, "import-returns-nil")
